@@ -9,4 +9,4 @@ Extraction Language OCaml.
 Extraction "model.ml"
   norm_file norm_dir as_rel as_explicit_rel to_nix ancestor_dirs
   prep check_C05 holds_C05 oracle_okb owned_paths
-  payload_of check_C01 holds_C01 lookup_hash tzero fi_empty.
+  payload_of check_C01 holds_C01 envelope_C01 lookup_hash tzero fi_empty.
